@@ -346,6 +346,10 @@ pub fn render(case: &Value) -> Option<Vec<String>> {
         "names" => render_names(it),
         "attrs" => render_attr(it),
         "inherit" => render_inherit(it).0,
+        "attrlists" => {
+            let list: Vec<String> = strs(&it["as"]).iter().map(|a| format!("[{}]", attr_text(a, "valid1"))).collect();
+            vec![format!("module M\ninterface I {{ {} op(p: int32) -> bool }}\n", list.join(" "))]
+        }
         _ => return None,
     })
 }
